@@ -171,6 +171,12 @@ pub fn run(p: &Params, rep: &mut Report) {
         let n = if p.thorough { super::scale::N_THOROUGH } else { super::scale::N_QUICK };
         super::scale::c05(rep, n, p.seed);
     }
+    if p.shard == 6 {
+        for centre in [256, 65536] {
+            super::ladder::traversal_gap(rep, super::ladder::Trav::Empty, centre, p.seed);
+            super::ladder::traversal_gap(rep, super::ladder::Trav::GetString, centre, p.seed);
+        }
+    }
     let stride = 1;
     for_tiny_programs(p, rep, stride, p.size(150, 3000), |prog, seed, rep| check_program(prog, seed, p.thorough, rep));
     let n = p.size(200, 1200);
